@@ -13,7 +13,7 @@ import ast
 import re as _re
 
 from .model import PKG, AnalysisError, Program, is_property, norm
-from .values import (ArgsView, Bound, ClsRef, Const, Dct, EnumV, ExcV, Ext, Func, Lam, Lst, NodeV, Obj, Seq, Str,
+from .values import (ArgsView, Bound, ClsRef, Const, Dct, EnumV, ExcV, Ext, Func, Lam, Lst, NodeV, Obj, Part, Seq, Str,
                      Sym, Tpl, Tup, Val, mkstr, tagof)
 
 
@@ -323,6 +323,8 @@ class Interp:
             kv = self.ev(k, env)
             key = kv.v if isinstance(kv, Const) else tagof(kv)
             d.items[key] = self.ev(v, env)
+            if not isinstance(kv, Const):
+                d.keyvals[key] = kv
         return d
 
     def ev_JoinedStr(self, e, env):
@@ -538,6 +540,8 @@ class Interp:
                 return v.items[idx.v]
         if isinstance(v, Dct) and isinstance(idx, Const) and idx.v in v.items:
             return v.items[idx.v]
+        if isinstance(v, Dct) and not isinstance(idx, Const) and tagof(idx) in v.items:
+            return v.items[tagof(idx)]
         if isinstance(v, ArgsView) and isinstance(idx, Const):
             return self.node_arg(v.node, idx.v)
         if isinstance(v, Seq):
@@ -600,13 +604,14 @@ class Interp:
         if isinstance(it, (Tup, Lst)) and not getattr(it, "open", False):
             return list(it.items)
         if isinstance(it, Dct):
-            return [Const(k) for k in it.items]
+            return [it.keyvals.get(k, Const(k)) for k in it.items]
         if isinstance(it, Sym) and it.origin and it.origin[0] == "enumerate":
             inner = self.iter_values(it.origin[1], site)
             if inner is not None:
                 return [Tup([Const(i), x]) for i, x in enumerate(inner)]
         if isinstance(it, Sym) and it.origin and it.origin[0] == "dictitems":
-            return [Tup([Const(k), v]) for k, v in it.origin[1].items.items()]
+            d = it.origin[1]
+            return [Tup([d.keyvals.get(k, Const(k)), v]) for k, v in d.items.items()]
         return None
 
     def ev_Attribute(self, e, env):
@@ -807,6 +812,8 @@ class Interp:
             return self.ev(f.node.body, sub)
         if isinstance(f, ClsRef):
             return self.construct(f, args, kwargs, site)
+        if isinstance(f, Part):
+            return self.call(f.func, [*f.args, *args], {**f.kwargs, **kwargs}, site, env)
         if isinstance(f, Bound):
             return self.call_method(f.recv, f.name, args, kwargs, site, env)
         if isinstance(f, Ext):
@@ -1006,6 +1013,18 @@ class Interp:
                 except (TypeError, ValueError):
                     pass
             return Sym(f"{b}({','.join(tagof(x) for x in args)})", origin=("call", b, args, kwargs))
+        if d == "functools.partial" and args:
+            return Part(args[0], args[1:], kwargs)
+        if b == "next" and args:
+            src = args[0]
+            if isinstance(src, (Lst, Tup)) and not getattr(src, "open", False):
+                if src.items:
+                    return src.items[0]
+                if len(args) > 1:
+                    return args[1]
+                exc = ExcV("builtins.StopIteration")
+                raise _Raise(exc)
+            return Sym(f"next({tagof(src)})", origin=("call", "next", args, kwargs))
         if d == "string.Template":
             return Tpl(a0)
         if d == "pathlib.Path":
@@ -1335,7 +1354,7 @@ class Interp:
         if name == "transform":
             self.effect("transform", n, a0, kwargs, site)
             r = None
-            if isinstance(a0, (Func, Lam)):
+            if isinstance(a0, (Func, Lam, Part)):
                 r = self.call(a0, [n], {k: v for k, v in kwargs.items() if k != "copy"}, site, env)
             if isinstance(r, NodeV):
                 return r
